@@ -554,6 +554,86 @@ fn clock_steps(ctx: &Ctx, out: &mut Out, rng: &mut Rng) {
     }
 }
 
+/// Many clients at once against a one-worker real server: requests keep arriving while a batch
+/// is being assembled and signed, and each reply is bracketed by its own client's clock readings
+/// (microsecond resolution for the classic protocol).
+fn concurrent_brackets(ctx: &Ctx, out: &mut Out, rng: &mut Rng) {
+    use crate::procs::*;
+    let seed = rng.bytes(32);
+    let pk = RefKey::from_seed(&seed).public();
+    let mut cfg = SrvCfg::new(free_port(false), &seed);
+    cfg.num_workers = Some(1);
+    cfg.batch_size = Some(*rng.pick(&[64u32, 8]));
+    cfg.tz = Some("UTC".into());
+    let Ok(mut sp) = spawn_server(&ctx.bins, &cfg, &ctx.scratch, "c11conc", None) else {
+        out.inconclusive("spawn failed");
+        return;
+    };
+    if sp.wait_ready(&pk, Duration::from_secs(10)).is_err() {
+        out.inconclusive("server not ready");
+        return;
+    }
+    let port = sp.cfg.port;
+    let stop_at = std::time::Instant::now() + Duration::from_millis(if ctx.thorough { 4000 } else { 1800 });
+    let handles: Vec<_> = (0..12u64)
+        .map(|i| {
+            let pk = pk.clone();
+            let s0 = rng.next_u64();
+            std::thread::spawn(move || {
+                let mut r = Rng::new(s0 ^ i);
+                let sock = std::net::UdpSocket::bind("127.0.0.1:0").unwrap();
+                sock.set_read_timeout(Some(Duration::from_millis(1000))).unwrap();
+                let addr: std::net::SocketAddr = format!("127.0.0.1:{}", port).parse().unwrap();
+                let mut res: Vec<(Proto, u64, u64, u64, bool)> = Vec::new();
+                let mut buf = vec![0u8; 4096];
+                while std::time::Instant::now() < stop_at {
+                    let p = if r.chance(3, 4) { Proto::Classic } else { Proto::Ietf };
+                    let (pkt, nonce) = make_request(&mut r, p, None);
+                    let (m0, t0) = (std::time::Instant::now(), SystemTime::now());
+                    if sock.send_to(&pkt, addr).is_err() {
+                        continue;
+                    }
+                    let Ok((n, _)) = sock.recv_from(&mut buf) else { break };
+                    let (m1, t1) = (std::time::Instant::now(), SystemTime::now());
+                    let view = crate::refimpl::verify::ReqView { proto: p, packet: &pkt, nonce };
+                    if let Ok(v) = crate::refimpl::verify::verify_response(&view, &buf[..n], &pk, crate::refimpl::verify::Opts { strict: true }) {
+                        // a stepped wall clock (or a descheduled reader) makes the bracket meaningless
+                        let wall = t1.duration_since(t0).unwrap_or_default();
+                        let mono = m1 - m0;
+                        let steady = wall.as_micros().abs_diff(mono.as_micros()) < 50_000;
+                        res.push((p, floor_unit(t0, p), v.midp, floor_unit(t1, p), steady));
+                    }
+                }
+                res
+            })
+        })
+        .collect();
+    let mut n = 0u64;
+    for h in handles {
+        for (p, lo, midp, hi, steady) in h.join().unwrap_or_default() {
+            if !steady {
+                out.obs("concurrent_brackets_skipped_clock_unsteady", 1);
+                continue;
+            }
+            n += 1;
+            out.obs("concurrent_replies_bracketed", 1);
+            if midp < lo || midp > hi {
+                out.violation(
+                    &format!("C11 running-server midpoint-outside-bracket concurrent-clients proto={} side={}", p.name(), if midp < lo { "before-request-was-sent" } else { "after-reply-arrived" }),
+                    &format!("12 concurrent clients, one worker: MIDP {} is not within the client's own readings [{}, {}] taken right before sending and right after receiving", midp, lo, hi),
+                    json!({"kind":"concurrent-bracket"}),
+                );
+            }
+        }
+    }
+    out.case(fnv64(&seed) ^ 0xc0c0, true);
+    out.obs_max("concurrent_replies_in_one_run", n as i64);
+    sp.signal(libc::SIGTERM);
+    if sp.wait_exit(Duration::from_secs(5)).is_none() {
+        sp.kill();
+    }
+}
+
 pub fn run_c11(ctx: &Ctx, out: &mut Out) {
     let mut rng = ctx.rng("C11");
     crate::inproc::install_shard_logger(ctx.shard, out);
@@ -601,6 +681,9 @@ pub fn run_c11(ctx: &Ctx, out: &mut Out) {
     if ctx.shard < 2 || ctx.thorough {
         clock_steps(ctx, out, &mut rng);
     }
+    if (2..4).contains(&ctx.shard) || (ctx.thorough && ctx.shard % 2 == 0) {
+        concurrent_brackets(ctx, out, &mut rng);
+    }
     for k in 0..ctx.share(480, 32_000) {
         brackets(out, &mut rng, k);
         if !ctx.time_left() {
@@ -614,6 +697,7 @@ pub fn run_c11(ctx: &Ctx, out: &mut Out) {
     out.floor("replies_bracketed_classic", 500);
     out.floor("replies_bracketed_ietf", 500);
     out.floor("identical_request_repeats_bracketed", 200);
+    out.floor("concurrent_replies_bracketed", 2_000);
     if ctx.bins.join("clockshim.so").exists() {
         out.floor("clock_step_replies_bracketed", 50);
     }
